@@ -147,7 +147,7 @@ def stability_rows(r):
     static scan's hits"""
     out = []
     a, b = r['py'], r['py']['after_use']
-    for key in ('command_messages', 'response_messages', 'classification', 'classes', 'registry', 'by_name', 'enums'):
+    for key in ('command_messages', 'response_messages', 'classification', 'classes', 'registry', 'by_name', 'enums', 'canonical'):
         if a.get(key) != b.get(key):
             if isinstance(a.get(key), list):
                 la, lb = [json.dumps(x) for x in a[key]], [json.dumps(x) for x in b[key]]
@@ -169,6 +169,34 @@ def stability_rows(r):
                         % (stage, key, name, value, why),
                         {'table': 'stability', 'kind': 'enum-member-not-reachable-on-every-access-path', 'subject': key, 'name': name, 'value': value,
                          'stage': stage, 'why': why}))
+    # value lookup gives the canonical (first declared) name: for a value with several C++ names, Python's E(value).name must be
+    # the first C++ enumerator declared with that value (range sentinels aside)
+    co = {(x['enum'], x['name']) for x in r['exceptions']['cpp_only']}
+    ren = {(x['enum'], x['cpp']): x['py'] for x in r['exceptions']['renamed']}
+    for stage, snap in (('right after import', a), ('after the library has been used in the same interpreter', b)):
+        for e in r['enums']:
+            pk = r['pairing'].get(e['short'])
+            first = {}
+            for n, v in r['cpp']['enum_values'][e['short']]:
+                if (e['short'], n) not in co:
+                    first.setdefault(v, ren.get((e['short'], n), n))
+            for v, pyname in snap.get('canonical', {}).get(pk, []):
+                if v in first and first[v] != pyname:
+                    out.append(('stability', 'canonical-name-differs', e['short'], pyname, v, 0,
+                                '[%s] enum %s: value %d is called %s first in C++, but Python value lookup %s(%d).name gives %s' % (stage, e['short'], v, first[v], pk, v, pyname),
+                                {'table': 'stability', 'kind': 'canonical-name-differs', 'subject': e['short'], 'name': pyname, 'value': v, 'stage': stage}))
+        # message_type_by_name: one entry per payload class name, giving that class's type
+        byn = {n: t for n, t in snap.get('by_name', [])}
+        names = [c[0] for c in snap.get('by_name_classes', [])]
+        for cname, full, t in snap.get('by_name_classes', []):
+            if names.count(cname) > 1 or byn.get(cname) != t:
+                out.append(('stability', 'message-type-by-name-differs', full, cname, t, 0,
+                            '[%s] message_type_by_name[%r] = %r, but class %s declares type %d%s' % (stage, cname, byn.get(cname), full, t, ' (class name used twice)' if names.count(cname) > 1 else ''),
+                            {'table': 'stability', 'kind': 'message-type-by-name-differs', 'subject': full, 'name': cname, 'stage': stage}))
+        for n in byn:
+            if n not in names:
+                out.append(('stability', 'message-type-by-name-differs', n, n, byn[n], 0, '[%s] message_type_by_name has %r, which is no payload class' % (stage, n),
+                            {'table': 'stability', 'kind': 'message-type-by-name-differs', 'subject': n, 'name': n, 'stage': stage}))
     for h in r['py'].get('static_hits', []):
         out.append(('stability', 'registry-mutated-in-place-by-library-code', h.split(':')[0], h.split(': ', 1)[-1], 0, 0,
                     'library code changes a registry object (or a name bound to it) in place: %s' % h,
